@@ -5,6 +5,7 @@ import (
 	"go/constant"
 	"go/token"
 	"go/types"
+	"math"
 	"reflect"
 	"strings"
 
@@ -750,6 +751,17 @@ func runB12(p *an.Prog, r *an.Result) {
 		}
 		if isDiff(v) && side == "nonempty" {
 			good = true
+		}
+		// saturation: on the non-empty side, where the difference was found not to be positive (it wrapped
+		// around: more elements than an int counts), the largest int is returned
+		if c, ok := an.ConstInt(v); ok && c == math.MaxInt64 && side == "nonempty" {
+			for _, g := range an.GuardsAtInstr(ret) {
+				if bo, ok := g.Cond.(*ssa.BinOp); ok && isDiff(bo.X) {
+					if z, isC := an.ConstInt(bo.Y); isC && z == 0 && (bo.Op == token.GTR && !g.True || bo.Op == token.LEQ && g.True) {
+						good = true
+					}
+				}
+			}
 		}
 		if cc := an.CallOf(v); cc != nil && an.CallName(cc) == "builtin.max" && len(cc.Args) == 2 {
 			z, d := false, false
@@ -1810,4 +1822,69 @@ func runX19(p *an.Prog, r *an.Result) {
 		}
 	}
 	r.Floor("float index truncations", 1)
+}
+
+// ---------------------------------------------------------------------------
+// F15
+
+func init() {
+	register("F15", "where the kind of a value is tested to find sequences, a fixed array counts like a slice: a comparison of a value's kind with reflect.Slice has a comparison of the same kind with reflect.Array beside it", runF15)
+}
+
+func runF15(p *an.Prog, r *an.Result) {
+	for _, fn := range p.Funcs {
+		if fn.Blocks == nil || isMainPkg(fn) || fn.Pkg == nil || p.IsGenerated(an.FuncPos(fn)) {
+			continue
+		}
+		switch an.RelPkg(an.Outermost(fn).Pkg.Pkg.Path()) {
+		case "values", "filters", "tags", "render", "expressions":
+		default:
+			continue
+		}
+		// kind value -> constants it is compared with
+		type cmp struct {
+			k   ssa.Value
+			c   int64
+			pos token.Pos
+		}
+		var cmps []cmp
+		an.EachInstr(fn, func(in ssa.Instruction) {
+			b, ok := in.(*ssa.BinOp)
+			if !ok || (b.Op != token.EQL && b.Op != token.NEQ) {
+				return
+			}
+			for _, pair := range [][2]ssa.Value{{b.X, b.Y}, {b.Y, b.X}} {
+				if c, ok := an.ConstInt(pair[1]); ok && isPkgType(pair[0].Type(), "reflect", "Kind") && kindOfWhole(pair[0], 0) {
+					cmps = append(cmps, cmp{pair[0], c, b.Pos()})
+				}
+			}
+		})
+		for _, s := range cmps {
+			if s.c != 23 {
+				continue
+			}
+			r.Counts["slice kind tests"]++
+			hasArray, nilableSet := false, false
+			for _, o := range cmps {
+				if o.k == s.k || sameValue(o.k, s.k) || eqVal(o.k, s.k) {
+					if o.c == 17 {
+						hasArray = true
+					}
+					if o.c == 18 || o.c == 19 {
+						nilableSet = true // the kinds that can be nil: a slice is one, an array is not
+					}
+				}
+			}
+			name := an.FuncName(fn)
+			switch {
+			case hasArray:
+				r.OK(name, "kind == Slice beside kind == Array", s.pos, "")
+			case nilableSet:
+				r.Triv(name, "kind == Slice among the kinds that can be nil", s.pos, "not a test for sequences")
+			default:
+				r.Bad(name, "kind == Slice without kind == Array", s.pos, fmt.Sprintf("%s recognises a slice by its kind but not a fixed array: [3]int then has no size, no elements, is not iterated", name))
+			}
+		}
+	}
+	r.Floor("slice kind tests", 3)
 }
